@@ -14,7 +14,6 @@
 -/
 import Lcapy.Generated.Quantities
 import Lcapy.Proofs.QuantitiesBase
-import Mathlib.Tactic.SplitIfs
 namespace Lcapy.C18
 open Lcapy.Dim Lcapy.QModel Lcapy.Gen.Q Lcapy.QBase
 
@@ -55,25 +54,18 @@ theorem class_table_complete :
     ∀ d ∈ Domain.all, d ≠ .superposition → ∀ q ∈ Quantity.all, q ≠ .constant →
       (classTable.find? (fun r => r.dom == d && r.q == q)).isSome := by decide +kernel
 
-/-- the time exponent the spec expects of the default units of (domain, quantity): signals are
-    spectral densities (one factor 1/Hz per order) exactly in the Laplace, Fourier and angular
-    Fourier domains; impedance, admittance and transfer functions are per-second (impulse
-    responses) exactly in the time domain; power is W everywhere -/
-def timeExp (d : Domain) (q : Quantity) : Int :=
-  let spectral := d = .laplace || d = .fourier || d = .angularFourier
-  match q with
-  | .voltage | .current => if spectral then 1 else 0
-  | .voltagesquared | .currentsquared => if spectral then 2 else 0
-  | .impedance | .admittance | .transfer => if d = .time then -1 else 0
-  | .impedancesquared | .admittancesquared => if d = .time then -2 else 0
-  | _ => 0
-
 /-- `class_units_signals` + `class_units_immittance`: the `_default_units` of every one of the
-    190 quantity classes is (V, A exponents of the quantity) x (the time exponent above) -/
-set_option maxRecDepth 8192 in
+    190 quantity classes is the spec's `expectedDim` (V, A exponents of the quantity; time exponent `timeExp`) -/
 theorem class_units_expected :
     ∀ r ∈ classTable, ∀ u, r.units = some u →
-      dimU u = ⟨(dimQ r.q).1, (dimQ r.q).2, timeExp r.dom r.q⟩ := by decide +kernel
+      dimU u = expectedDim r.dom r.q := by
+  have h : classTable.all (fun r => match r.units with
+      | none => true
+      | some u => decide (dimU u = expectedDim r.dom r.q)) = true := by
+    decide +kernel
+  intro r hr u hu
+  have := List.all_eq_true.mp h r hr
+  simpa [hu] using this
 
 /-- in particular every class default is labelled consistently -/
 theorem class_units_label :
@@ -102,7 +94,7 @@ theorem power_default_is_not_the_product_in_spectral_domains :
 
 /-- the hand model of lcapy/exprmap.py agrees with the real function on every (quantity, domain) -/
 theorem exprmap_model_eq_table :
-    ∀ r ∈ exprmapTable, exprmapM tables r.1 r.2.1 = r.2.2 := by decide
+    ∀ r ∈ exprmapTable, exprmapM tables r.1 r.2.1 = r.2.2 := by decide +kernel
 
 /-- the constant-domain flags of the model are those of domains.py -/
 theorem const_domains :
@@ -261,11 +253,11 @@ theorem mul_consistent (a x : Opd) (d : Domain) (q : Quantity) (u : U)
   have h2 := mul_quantity_dimension tables mul_dim a x d q u h hg
   exact ⟨by rw [h1, va_add, ha, hx, h2], h1⟩
 
-example : mulM tables ⟨.laplace, .voltage, ⟨1, 0, 0, 0, 0, -1, 0, 0⟩, false, false, false⟩
+theorem witness_mul_voltage_admittance : mulM tables ⟨.laplace, .voltage, ⟨1, 0, 0, 0, 0, -1, 0, 0⟩, false, false, false⟩
     ⟨.laplace, .admittance, ⟨0, 0, 0, 1, 0, 0, 0, 0⟩, false, false, false⟩ =
     .ok .laplace .current ⟨1, 0, 0, 1, 0, -1, 0, 0⟩ := by decide
 
-example : mulM tables ⟨.time, .voltage, ⟨1, 0, 0, 0, 0, 0, 0, 0⟩, false, false, false⟩
+theorem witness_mul_refused : mulM tables ⟨.time, .voltage, ⟨1, 0, 0, 0, 0, 0, 0, 0⟩, false, false, false⟩
     ⟨.time, .impedance, ⟨0, 0, 1, 0, 0, 0, -1, 0⟩, false, false, false⟩ = .err .quantities := by decide
 
 /-- `/`: which branch is taken -/
@@ -346,7 +338,7 @@ theorem recip_consistent (x : Opd) (hx : x.q = .impedance ∨ x.q = .admittance)
   · exact ⟨_, _, _, rfl, (key _ (domain_mem_all _) hd .impedance (by simp)).2, by decide⟩
   · exact ⟨_, _, _, rfl, (key _ (domain_mem_all _) hd .impedance (by simp)).1, by decide⟩
 
-example : divM tables ⟨.laplace, .voltage, ⟨1, 0, 0, 0, 0, -1, 0, 0⟩, false, false, false⟩
+theorem witness_div_voltage_current : divM tables ⟨.laplace, .voltage, ⟨1, 0, 0, 0, 0, -1, 0, 0⟩, false, false, false⟩
     ⟨.laplace, .current, ⟨0, 1, 0, 0, 0, -1, 0, 0⟩, false, false, false⟩ =
     .ok .laplace .impedance ⟨1, -1, 0, 0, 0, 0, 0, 0⟩ := by decide
 
@@ -377,32 +369,46 @@ theorem add_refuses_partial (c : Cfg) (a x : Opd)
   unfold compatAdd
   cases unitsClash T c a x
   · simp only [Bool.false_eq_true, if_false]
-    unfold compatClass
+    unfold compatClass compatRules
     rcases h with h | h
-    · -- different defined quantities
+    · -- different defined quantities: every enabled rule is an error
+      apply firstMatch_spec (fun r => ∃ e, r = Except.error e) _ _ _ ⟨_, rfl⟩
+      intro r hr hg
       rw [Bool.and_eq_true, Bool.and_eq_true] at h
       obtain ⟨⟨ha, hx⟩, hne⟩ := h
       have hne' : a.q ≠ x.q := by simpa using hne
       have hau : a.q ≠ .undefined := by intro e; rw [e] at ha; simp [Quantity.isDefined] at ha
       have hxu : x.q ≠ .undefined := by intro e; rw [e] at hx; simp [Quantity.isDefined] at hx
-      have e1 : decide (x.q = Quantity.undefined) = false := decide_eq_false hxu
-      have e2 : decide (a.q = Quantity.undefined) = false := decide_eq_false hau
-      have e3 : decide (a.q = x.q) = false := decide_eq_false hne'
-      simp only [e1, e2, e3, o1, o2, o3, o4, Bool.and_false, Bool.false_and, Bool.false_eq_true,
-        if_false]
-      by_cases hd : a.dom = x.dom
-      · simp [hd]
-      · simp [hd]
-    · -- different non-constant domains
+      simp only [compatRulesHead, compatRulesTail, List.cons_append, List.nil_append, List.mem_cons,
+        List.mem_nil_iff, or_false] at hr
+      rcases hr with rfl | rfl | rfl | rfl | rfl | rfl | rfl | rfl | rfl | rfl | rfl | rfl | rfl <;>
+        first
+          | exact ⟨_, rfl⟩
+          | (rw [o1] at hg; cases hg)
+          | (rw [o2] at hg; cases hg)
+          | (rw [o3] at hg; cases hg)
+          | (rw [o4] at hg; cases hg)
+          | (exfalso; simp [hne', hau, hxu] at hg)
+    · -- different non-constant domains: the domain test is enabled and everything enabled
+      -- before it is an error
+      rw [firstMatch_append]
       rw [Bool.and_eq_true, Bool.and_eq_true] at h
       obtain ⟨⟨hca, hcx⟩, hd⟩ := h
       have hca' : isConst T a.dom = false := by simpa using hca
       have hcx' : isConst T x.dom = false := by simpa using hcx
       have hd' : a.dom ≠ x.dom := by simpa using hd
-      have e3 : decide (a.dom = x.dom) = false := decide_eq_false hd'
-      simp only [hca', hcx', e3, o1, o2, o3, o4, Bool.and_false, Bool.false_and, Bool.false_eq_true,
-        if_false]
-      simp [hd']
+      apply firstMatch_spec_enabled (fun r => ∃ e, r = Except.error e)
+      · intro r hr hg
+        simp only [compatRulesHead, List.mem_cons, List.mem_nil_iff, or_false] at hr
+        rcases hr with rfl | rfl | rfl | rfl | rfl | rfl | rfl | rfl | rfl | rfl | rfl <;>
+          first
+            | exact ⟨_, rfl⟩
+            | (rw [o1] at hg; cases hg)
+            | (rw [o2] at hg; cases hg)
+            | (rw [o3] at hg; cases hg)
+            | (rw [o4] at hg; cases hg)
+            | (exfalso; simp [hca', hcx', hd'] at hg)
+      · exact ⟨(a.dom != x.dom, .error .domains), by simp [compatRulesHead], by simpa using hd'⟩
   · exact ⟨.units, by simp⟩
 
 /-- ... and such expressions never compare equal: `==` returns False without comparing values -/
@@ -422,13 +428,19 @@ theorem add_result (c : Cfg) (a x : Opd) (d : Domain) (q : Quantity) (u : U)
     (h : addM T c a x = .ok d q u) :
     ((d, q) = (a.dom, a.q) ∨ (d, q) = (x.dom, x.q)) ∧ u = defaultUnits T d q := by
   have hcls : ∀ r, compatClass T c a x = .ok r → r = (a.dom, a.q) ∨ r = (x.dom, x.q) := by
-    intro r hr
-    unfold compatClass at hr
-    split_ifs at hr
-    all_goals first
-      | (cases hr; exact Or.inl rfl)
-      | (cases hr; exact Or.inr rfl)
-      | cases hr
+    have := firstMatch_spec (fun r => ∀ p, r = Except.ok p → p = (a.dom, a.q) ∨ p = (x.dom, x.q))
+      (compatRules T c a x) (.error .quantities) ?_ ?_
+    · exact this
+    all_goals skip
+    · intro r hr _ p hp
+      simp only [compatRules, compatRulesHead, compatRulesTail, List.cons_append, List.nil_append,
+        List.mem_cons, List.mem_nil_iff, or_false] at hr
+      rcases hr with rfl | rfl | rfl | rfl | rfl | rfl | rfl | rfl | rfl | rfl | rfl | rfl | rfl <;>
+        first
+          | (cases hp; exact Or.inl rfl)
+          | (cases hp; exact Or.inr rfl)
+          | cases hp
+    · intro p hp; cases hp
   simp only [addM, compatAdd] at h
   split at h
   · simp at h
@@ -451,17 +463,17 @@ theorem add_checks_units (l k : Bool) (a x : Opd)
     rcases hl with hl | ⟨h1, h2⟩ <;> simp [hz.1, hz.2, *]
   simp [compatAdd, this]
 
-example : addM tables ⟨true, true, false⟩ ⟨.time, .voltage, ⟨1, 0, 0, 0, 0, 0, 0, 0⟩, false, false, false⟩
+theorem witness_add_refused_units : addM tables ⟨true, true, false⟩ ⟨.time, .voltage, ⟨1, 0, 0, 0, 0, 0, 0, 0⟩, false, false, false⟩
     ⟨.time, .current, ⟨0, 1, 0, 0, 0, 0, 0, 0⟩, false, false, false⟩ = .err .units := by decide
 
-example : addM tables ⟨true, false, false⟩ ⟨.time, .voltage, ⟨1, 0, 0, 0, 0, 0, 0, 0⟩, false, false, false⟩
+theorem witness_add_refused_quantities : addM tables ⟨true, false, false⟩ ⟨.time, .voltage, ⟨1, 0, 0, 0, 0, 0, 0, 0⟩, false, false, false⟩
     ⟨.time, .current, ⟨0, 1, 0, 0, 0, 0, 0, 0⟩, false, false, false⟩ = .err .quantities := by decide
 
-example : addM tables ⟨true, true, false⟩ ⟨.laplace, .voltage, ⟨1, 0, 0, 0, 0, -1, 0, 0⟩, false, false, false⟩
+theorem witness_add_accepted : addM tables ⟨true, true, false⟩ ⟨.laplace, .voltage, ⟨1, 0, 0, 0, 0, -1, 0, 0⟩, false, false, false⟩
     ⟨.laplace, .voltage, ⟨1, 0, 0, 0, 0, 0, 1, 0⟩, false, false, false⟩ =
-    .ok .laplace .voltage ⟨1, 0, 0, 0, 0, -1, 0, 0⟩ := by decide
+    .ok .laplace .voltage (defaultUnits tables .laplace .voltage) := by decide
 
-example : mustRefuse .voltage .current false false true = true := by decide
+theorem witness_must_refuse : mustRefuse .voltage .current false false true = true := by decide
 
 /-! ## 4. `**` and transforms -/
 
@@ -497,7 +509,7 @@ theorem transform_model_units (a : Opd) (m : String) (d : Domain) (q : Quantity)
       refine ⟨h.2.1.symm, r, hmem, hp.1, hp.2, Or.inr ?_⟩
       rw [← h.2.2, ← h.1]
 
-example : transformM tables ⟨.time, .voltage, ⟨1, 0, 0, 0, 0, 0, 0, 0⟩, false, false, false⟩ "LT" =
+theorem witness_transform_LT : transformM tables ⟨.time, .voltage, ⟨1, 0, 0, 0, 0, 0, 0, 0⟩, false, false, false⟩ "LT" =
     some (.ok .laplace .voltage ⟨1, 0, 0, 0, 0, 0, 1, 0⟩) := by decide
 
 end Lcapy.C18
